@@ -505,6 +505,7 @@ def main(pid, argv=None):
     if pid == "C05" and (not ck.replay or doc_level):
         somersault_decode(ck)
         unmodelled_composites_decode(ck)
+        snoop_sequences(ck)
     if pid == "C17" and (not ck.replay or doc_level):
         cli_mode_restore(ck)
     if pid == "C08" and (not ck.replay or doc_level):
@@ -765,7 +766,20 @@ UNMODELLED_DOC = ('<?xml version="1.0" encoding="UTF-8"?><ODX MODEL-VERSION="2.2
  '<DIAG-DATA-DICTIONARY-SPEC><DATA-OBJECT-PROPS>'
  '<DATA-OBJECT-PROP ID="u8"><SHORT-NAME>u8</SHORT-NAME><COMPU-METHOD><CATEGORY>IDENTICAL</CATEGORY></COMPU-METHOD>'
  '<DIAG-CODED-TYPE BASE-DATA-TYPE="A_UINT32" xsi:type="STANDARD-LENGTH-TYPE"><BIT-LENGTH>8</BIT-LENGTH></DIAG-CODED-TYPE>'
- '<PHYSICAL-TYPE BASE-DATA-TYPE="A_UINT32"/></DATA-OBJECT-PROP></DATA-OBJECT-PROPS>'
+ '<PHYSICAL-TYPE BASE-DATA-TYPE="A_UINT32"/></DATA-OBJECT-PROP>'
+ '<DATA-OBJECT-PROP ID="str1252"><SHORT-NAME>str1252</SHORT-NAME><COMPU-METHOD><CATEGORY>IDENTICAL</CATEGORY></COMPU-METHOD>'
+ '<DIAG-CODED-TYPE BASE-DATA-TYPE="A_ASCIISTRING" BASE-TYPE-ENCODING="WINDOWS-1252" xsi:type="STANDARD-LENGTH-TYPE"><BIT-LENGTH>8</BIT-LENGTH></DIAG-CODED-TYPE>'
+ '<PHYSICAL-TYPE BASE-DATA-TYPE="A_UNICODE2STRING"/></DATA-OBJECT-PROP>'
+ '<DATA-OBJECT-PROP ID="str88592"><SHORT-NAME>str88592</SHORT-NAME><COMPU-METHOD><CATEGORY>IDENTICAL</CATEGORY></COMPU-METHOD>'
+ '<DIAG-CODED-TYPE BASE-DATA-TYPE="A_ASCIISTRING" BASE-TYPE-ENCODING="ISO-8859-2" xsi:type="STANDARD-LENGTH-TYPE"><BIT-LENGTH>8</BIT-LENGTH></DIAG-CODED-TYPE>'
+ '<PHYSICAL-TYPE BASE-DATA-TYPE="A_UNICODE2STRING"/></DATA-OBJECT-PROP>'
+ '<DATA-OBJECT-PROP ID="strucs2"><SHORT-NAME>strucs2</SHORT-NAME><COMPU-METHOD><CATEGORY>IDENTICAL</CATEGORY></COMPU-METHOD>'
+ '<DIAG-CODED-TYPE BASE-DATA-TYPE="A_UNICODE2STRING" xsi:type="STANDARD-LENGTH-TYPE"><BIT-LENGTH>16</BIT-LENGTH></DIAG-CODED-TYPE>'
+ '<PHYSICAL-TYPE BASE-DATA-TYPE="A_UNICODE2STRING"/></DATA-OBJECT-PROP>'
+ '<DATA-OBJECT-PROP ID="str1252e"><SHORT-NAME>str1252e</SHORT-NAME><COMPU-METHOD><CATEGORY>IDENTICAL</CATEGORY></COMPU-METHOD>'
+ '<DIAG-CODED-TYPE BASE-DATA-TYPE="A_ASCIISTRING" BASE-TYPE-ENCODING="WINDOWS-1252" TERMINATION="END-OF-PDU" xsi:type="MIN-MAX-LENGTH-TYPE"><MIN-LENGTH>0</MIN-LENGTH></DIAG-CODED-TYPE>'
+ '<PHYSICAL-TYPE BASE-DATA-TYPE="A_UNICODE2STRING"/></DATA-OBJECT-PROP>'
+ '</DATA-OBJECT-PROPS>'
  '<STRUCTURES>'
  '<STRUCTURE ID="s2"><SHORT-NAME>s2</SHORT-NAME><PARAMS><PARAM xsi:type="VALUE"><SHORT-NAME>k</SHORT-NAME><BYTE-POSITION>0</BYTE-POSITION>'
  '<DOP-REF ID-REF="u8"/></PARAM><PARAM xsi:type="VALUE"><SHORT-NAME>d</SHORT-NAME><BYTE-POSITION>1</BYTE-POSITION><DOP-REF ID-REF="u8"/></PARAM></PARAMS></STRUCTURE>'
@@ -802,7 +816,80 @@ UNMODELLED_DOC = ('<?xml version="1.0" encoding="UTF-8"?><ODX MODEL-VERSION="2.2
  '<CODED-VALUE>37</CODED-VALUE><DIAG-CODED-TYPE BASE-DATA-TYPE="A_UINT32" xsi:type="STANDARD-LENGTH-TYPE"><BIT-LENGTH>8</BIT-LENGTH></DIAG-CODED-TYPE></PARAM>'
  '<PARAM xsi:type="VALUE"><SHORT-NAME>m</SHORT-NAME><BYTE-POSITION>1</BYTE-POSITION><DOP-REF ID-REF="mux3"/></PARAM>'
  '<PARAM xsi:type="VALUE"><SHORT-NAME>tail</SHORT-NAME><BYTE-POSITION>3</BYTE-POSITION><DOP-REF ID-REF="u8"/></PARAM></PARAMS></REQUEST>'
+ '<REQUEST ID="rq5"><SHORT-NAME>rq5</SHORT-NAME><PARAMS><PARAM xsi:type="CODED-CONST"><SHORT-NAME>sid</SHORT-NAME><BYTE-POSITION>0</BYTE-POSITION>'
+ '<CODED-VALUE>38</CODED-VALUE><DIAG-CODED-TYPE BASE-DATA-TYPE="A_UINT32" xsi:type="STANDARD-LENGTH-TYPE"><BIT-LENGTH>8</BIT-LENGTH></DIAG-CODED-TYPE></PARAM>'
+ '<PARAM xsi:type="VALUE"><SHORT-NAME>a</SHORT-NAME><BYTE-POSITION>1</BYTE-POSITION><DOP-REF ID-REF="str1252"/></PARAM>'
+ '<PARAM xsi:type="VALUE"><SHORT-NAME>b</SHORT-NAME><BYTE-POSITION>2</BYTE-POSITION><DOP-REF ID-REF="str88592"/></PARAM>'
+ '<PARAM xsi:type="VALUE"><SHORT-NAME>c</SHORT-NAME><BYTE-POSITION>3</BYTE-POSITION><DOP-REF ID-REF="strucs2"/></PARAM>'
+ '<PARAM xsi:type="VALUE"><SHORT-NAME>d</SHORT-NAME><BYTE-POSITION>5</BYTE-POSITION><DOP-REF ID-REF="str1252e"/></PARAM></PARAMS></REQUEST>'
  '</REQUESTS></BASE-VARIANT></BASE-VARIANTS></DIAG-LAYER-CONTAINER></ODX>')
+
+
+def code_pages_decode(ck, raw):
+    """C05 (oracle only): every byte value as the content of a string in a single-byte code page (WINDOWS-1252 leaves
+    five bytes undefined), as half of a UCS-2 code unit (lone surrogates) and in an END-OF-PDU string"""
+    from odxtools.exceptions import DecodeError
+    rq5 = [r for r in raw.requests if r.short_name == "rq5"][0]
+    kinds = {1: "WINDOWS-1252", 2: "ISO-8859-2", 3: "UCS-2", 4: "UCS-2", 5: "WINDOWS-1252 END-OF-PDU"}
+    n = 0
+    for pos, kind in kinds.items():
+        for b in range(256):
+            m = bytearray([38, 0x41, 0x41, 0x00, 0x41, 0x41])
+            m[pos] = b
+            m = bytes(m)
+            n += 1
+            r, e, _ = cc.guarded(lambda: rq5.decode(m), timeout=3)
+            ck.count(("codepage", pos, b))
+            if e is not None and not isinstance(e, DecodeError):
+                what = "does not terminate" if isinstance(e, cc.Hang) else f"raised {type(e).__name__}: {e}"
+                ck.violation(f"decoding {m.hex()} with request rq5 (byte {b:#04x} in a {kind} string) {what}",
+                             {"document": "harness/codec_checks.py UNMODELLED_DOC", "request": "rq5", "msg": m.hex()})
+                break
+    ck.coverage["code_page_messages"] = n
+
+
+def snoop_sequences(ck):
+    """C05 (oracle only): the decoding front end of the snoop tool (an anchor of the property: it catches exactly
+    DecodeError) on telegram sequences over the shipped database: responses before any request, responses after a
+    request the database does not know, prefixes and single-byte mutations of a valid exchange"""
+    import contextlib
+    import io
+    import warnings
+    import odxtools.cli.snoop as snoop
+    import hier_common as hc
+    try:
+        import odxtools
+        db = odxtools.load_pdx_file(os.path.join(common.REPO, "examples", "somersault.pdx"))
+        ecu = db.ecus.somersault_lazy
+        rq = bytes(ecu.services.session_start.encode_request())
+        rs = bytes(ecu.services.session_start.positive_responses[0].encode(coded_request=rq, can_do_backward_flips="true"))
+    except Exception as e:  # noqa
+        ck.note_broken(f"cannot prepare the snoop telegrams: {type(e).__name__}: {e}")
+        return
+    RX, TX = 0x7B0, 0x7B8
+    reqs = [rq, rq[:1], b"", bytes([0x99, 1, 2]), bytes([rq[0] ^ 0xFF]) + rq[1:]]
+    resps = [rs, rs[:1], b"", bytes([0x7F, 0x99, 0x11]), bytes([0x7F, rq[0], 0x78]), bytes([0xD9, 1]), bytes([0x7F])]
+    resps += [rs[:i] + bytes([rs[i] ^ 0x01]) + rs[i + 1:] for i in range(len(rs))]
+    seqs = [[(TX, r)] for r in resps]
+    seqs += [[(RX, q), (TX, r)] for q in reqs for r in resps]
+    seqs += [[(RX, rq), (TX, rs), (RX, q), (TX, r)] for q in reqs[1:] for r in resps]
+    seqs += [[(0x123, rq), (TX, rs)]]
+    n = 0
+    for seq in seqs:
+        snoop.odx_diag_layer, snoop.ecu_rx_id, snoop.ecu_tx_id, snoop.last_request = ecu, RX, TX, None
+        for i, (tid, payload) in enumerate(seq):
+            n += 1
+            ck.count(("snoop", tuple((t, p) for t, p in seq[:i + 1])))
+            try:
+                with contextlib.redirect_stdout(io.StringIO()), warnings.catch_warnings():
+                    warnings.simplefilter("ignore")
+                    snoop.handle_telegram(tid, payload)
+            except Exception as e:  # noqa
+                ck.violation(f"snoop.handle_telegram: telegram #{i} of the sequence {[(hex(t), p.hex()) for t, p in seq]} "
+                             f"raised {type(e).__name__}: {e}",
+                             {"layer": "somersault_lazy", "telegrams": [[t, p.hex()] for t, p in seq]})
+                return
+    ck.coverage["snoop_telegrams"] = n
 
 
 def unmodelled_composites_decode(ck):
@@ -833,6 +920,7 @@ def unmodelled_composites_decode(ck):
                              {"document": "harness/codec_checks.py UNMODELLED_DOC", "request": rq.short_name, "msg": m.hex()})
                 break
     ck.coverage["multiplexer_messages"] = n
+    code_pages_decode(ck, raw)
 
 
 def unmodelled_composites_roundtrip(ck):
